@@ -44,6 +44,9 @@ def plan(tier):
     return [
         K("k_path_match", "kjobs.c11", "path_matching", "path/class matching vs segment suffix"),
         K("k_reexport_keys", "kjobs.c11", "reexport_key_matching", "re-export key selection vs dotted-segment membership"),
+        CH("placeholders", "harness.c10", "placeholders", [f"0:{c},1:{a},2:{b}" for c in range(2) for a in range(2) for b in range(2)], timeout=t,
+           desc="placeholder stubs: each path written once, every referenced foreign class declared where its import points",
+           stubs=["in-memory FS"]),
         CH("closure", "harness.c11", "closure", parts, timeout=t, desc="references declared or imported; imports resolve",
            stubs=["in-memory FS"], symbolic="configuration selectors"),
     ]
